@@ -231,6 +231,34 @@ Theorem C17_download_progress_final : forall interval t0 pre n now,
 Proof. exact download_progress_final. Qed.
 Print Assumptions C17_download_progress_final.
 
+(* several response bodies in one call (redirect pages the http client drains, the body of an
+   attempt that is retried, the body that is saved): each is read through a fresh wrapper, so the
+   reports made for body k depend on body k alone ... *)
+Theorem C17_body_reports_independent : forall interval pre post pre' post' b,
+  nth (length pre) (run_bodies interval (pre ++ b :: post)) [] =
+  nth (length pre') (run_bodies interval (pre' ++ b :: post')) [].
+Proof. exact body_reports_independent. Qed.
+Print Assumptions C17_body_reports_independent.
+
+(* ... and what the caller is told is truthful for the saved body whatever preceded it *)
+Theorem C17_call_progress_truthful : forall interval pre t0 evs,
+  let rs := call_reports interval (pre ++ [(t0, evs)]) in
+  incr_above 0 rs /\ Forall (fun r => (r <= read_total evs)%Z) rs /\
+  (forall evs' n now, evs = evs' ++ [(n, true, now)] -> (0 < read_total evs)%Z ->
+     exists p, rs = p ++ [read_total evs]).
+Proof. exact call_progress_truthful. Qed.
+Print Assumptions C17_call_progress_truthful.
+
+(* one counter shared by the bodies of a call would not be *)
+Theorem C17_shared_counter_refuted :
+  exists interval bodies,
+    let own := nth 1 bodies (0%Z, []) in
+    nth 1 (run_bodies_shared interval (r0 0) bodies) [] = [250%Z] /\
+    read_total (snd own) = 100%Z /\
+    nth 1 (run_bodies interval bodies) [] = [100%Z].
+Proof. exact shared_counter_refuted. Qed.
+Print Assumptions C17_shared_counter_refuted.
+
 (* int64: with fewer than 2^63 bytes in total every count the Go code computes and reports lies in
    (0, 2^63) - no wrap-around, the Z model is exact *)
 Theorem C17_upload_counts_fit_int64 : forall total interval evs st,
